@@ -99,7 +99,12 @@ def _call_flux(bad, kinds, fname, cont, what, M, f_src, f_snk, pops, e, shape, f
     try:
         with warnings.catch_warnings(), np.errstate(all="ignore"):
             warnings.simplefilter("ignore")
-            got = getattr(tpt, fname)(M, f_src, f_snk, populations=pops)
+            # given populations go in by keyword or, as the signature (tprob, sources, sinks, populations) allows, as
+            # the fourth positional argument
+            if pops is not None and (len(cont) + len(fname) + len(what)) % 2:
+                got = getattr(tpt, fname)(M, f_src, f_snk, pops)
+            else:
+                got = getattr(tpt, fname)(M, f_src, f_snk, populations=pops)
     except Exception as ex:
         if fname == "net_fluxes" and not cont.startswith("dense"):
             key = "net_fluxes/sparse/raises"
